@@ -505,7 +505,7 @@ pub fn main_for(pid: &str) {
 
 const BRACKET_DOCS: usize = 40;
 
-fn bracket_strings() -> Vec<String> {
+pub fn bracket_strings() -> Vec<String> {
     let mut out = vec![];
     for (alphabet, lens) in [(&[']', '>', 'x'][..], 1..=5usize), (&[']', '>'][..], 6..=7usize)] {
         for len in lens {
@@ -520,7 +520,7 @@ fn bracket_strings() -> Vec<String> {
     out
 }
 
-fn bracket_text(r: &mut Rng, a: &mut ANode) {
+pub fn bracket_text(r: &mut Rng, a: &mut ANode) {
     match a {
         ANode::Doc(kids) => { for k in kids.iter_mut() { bracket_text(r, k); } }
         ANode::Elem { kids, .. } => { for k in kids.iter_mut() { bracket_text(r, k); } }
